@@ -113,6 +113,8 @@ class ClassInfo:
         return out
 
     def method_kind(self, name: str) -> str:
+        if name not in self.methods and isinstance(self.assigns.get(name), ast.Name) and self.assigns[name].id in self.methods:
+            name = self.assigns[name].id        # `alias = method` in the class body
         fn = self.methods[name]
         decs = [ast.unparse(d) for d in fn.decorator_list]
         if any(d.split('.')[-1] == 'cached_property' for d in decs):
